@@ -14,6 +14,7 @@ import math, cmath, random
 # --------------------------------------------------------------------------- atoms
 _ATOMS = {}          # id -> Atom
 MAX_PRODUCT_TERMS = 600000   # work budget per polynomial product
+DEADLINE = None              # wall-clock limit of the theorem being explored (set by interp.explore)
 POSITIVE = set()     # ids of symbols a check declares to be > 0 (e.g. radii after normalisation)
 
 
@@ -211,6 +212,10 @@ class Poly(object):
         if len(self.t) * len(o.t) > MAX_PRODUCT_TERMS:
             raise Undecidable('polynomial product too large (%d x %d terms): the expression left the tractable fragment'
                               % (len(self.t), len(o.t)))
+        if DEADLINE is not None and len(self.t) * len(o.t) > 64:
+            import time as _time
+            if _time.time() > DEADLINE:
+                raise Undecidable('the time limit of this theorem is exceeded (expressions outside the exact fragment grow without bound)')
         acc = {}
         pending = []  # reducible products are expanded separately
         for m1, c1 in self.t.items():
